@@ -317,9 +317,10 @@ def sniffGroupTcp (buf : Bytes) : Except Err Bytes :=
 /-! ## The stream sniffer (`sniffer.go`, `conn_sniffer.go`) over a scripted connection -/
 
 /-- What the client side does, one entry per `Read` of the connection:
-`data b` — `b` arrives; `eof` — the read returns `io.EOF`; `stall` — nothing arrives before the
-armed read deadline (a read without deadline just waits for the next event); `rst` — the read
-fails with a non-timeout error.  After the script: `io.EOF` (or a timeout if a deadline is armed). -/
+`data b` — `b` arrives; `stall` — nothing arrives before the armed read deadline (a read without
+deadline just waits for the next event); `eof` — the client has closed: this and every later read
+returns `io.EOF` (an armed read that is repeated at EOF eventually hits its deadline); `rst` — this
+and every later read fails with a non-timeout error.  A script that ends is at EOF. -/
 inductive Ev
   | data (b : Bytes)
   | eof
@@ -336,17 +337,21 @@ structure TcpOutcome where
   rest : List Ev               -- what the connection still has to deliver
 deriving Repr
 
+/-- One pass of the `SniffTcp` loop body after a read that added nothing because the client is at
+EOF: a further `ErrNeedMore` makes the loop read again, and again, until the deadline fires. -/
+def atEof (buf : Bytes) (nm : Bool) (rest : List Ev) : TcpOutcome :=
+  if buf = [] then ⟨.error .notApplicable, nm, buf, none, rest⟩
+  else match sniffGroupTcp buf with
+    | .error .needMore => ⟨.error .timeout, true, buf, none, rest⟩
+    | r => ⟨r, nm, buf, none, rest⟩
+
 /-- The `for` loop of `SniffTcp` (stream case, read-deadline path): one `readStreamOnce` per event. -/
 def sniffLoop (buf : Bytes) (nm : Bool) : List Ev → TcpOutcome
+  | [] => atEof buf nm []
+  | .eof :: rest => atEof buf nm (.eof :: rest)
   -- the sniffer's own deadline: reported, but not latched in `dataError` (fix 9872939)
-  | [] => ⟨.error .timeout, nm, buf, none, []⟩                    -- armed read after the script
   | .stall :: rest => ⟨.error .timeout, nm, buf, none, rest⟩
   | .rst :: rest => ⟨.error .ioError, nm, buf, some .ioError, .rst :: rest⟩   -- a reset is sticky
-  | .eof :: rest =>
-    if buf = [] then ⟨.error .notApplicable, nm, buf, none, rest⟩
-    else match sniffGroupTcp buf with
-      | .error .needMore => sniffLoop buf true rest
-      | r => ⟨r, nm, buf, none, rest⟩
   | .data b :: rest =>
     if buf ++ b = [] then ⟨.error .notApplicable, nm, buf ++ b, none, rest⟩
     else match sniffGroupTcp (buf ++ b) with
